@@ -11,6 +11,7 @@ import random
 from hypothesis import strategies as st
 
 from pbt.core import HarnessError, Outcome
+from pbt.props import _decoys
 
 TECHNIQUE = "exhaustive short op sequences + Hypothesis-generated histories over a growing genome family, compared with a reference model after every call"
 LEVEL_TEXT = ("Exploration: each history of add_gene/mutate/rollback/set_expression/silence/activate/replicate/express calls on parent and children is "
@@ -33,6 +34,7 @@ ASSUMPTIONS = [
 ]
 MIN_NONTRIVIAL_FRACTION = 0.15
 RULE += ' Added after the seeded rounds: 1/25 of the histories contain 70, 140 or 1010 alternating mutate / rollback (or refused mutate) calls on the root genome.'
+RULE += ' Round 7: a `decoy` (pbt/props/_decoys.py): a second object of the class, differently configured and put through a misleading script (same prompts / names / ids, opposite verdicts and limits), is built in the same process after the object under test.'
 EXHAUSTIVE_NOTE = {"quick": "all op sequences of length 1..3 over 16 ops x 4 authorisation modes (4*(16+256+4096) = 17472), complete",
                    "thorough": "all op sequences of length 1..4 over 16 ops x 4 authorisation modes (279616), complete"}
 
@@ -78,7 +80,7 @@ _rep = st.tuples(st.just("rep"), st.sampled_from([70, 140, 1010]),
 def strategy(tier):
     plain = st.lists(_op, min_size=1, max_size=25)
     long = st.tuples(st.lists(_op, max_size=4), _rep, st.lists(_op, min_size=1, max_size=8)).map(lambda t: t[0] + [t[1]] + t[2])
-    return _strategy(st.integers(0, 24).flatmap(lambda k: long if k == 0 else plain))
+    return _decoys.with_decoy(_strategy(st.integers(0, 24).flatmap(lambda k: long if k == 0 else plain)))
 
 
 def _strategy(ops):
@@ -160,6 +162,9 @@ def judge(case):
     except Exception as e:
         out.fail("raise:%s:init" % type(e).__name__, "Genome() raised %s" % e, None)
         return out
+    if case.get("decoy"):
+        _decoys.genome(case["decoy"], Genome, Gene, GeneType, [g_[0] for g_ in case["genes"]])
+        out.label("decoy")
     m0 = _Model()
     for n, v, t, lv in case["genes"]:
         m0.values[n], m0.types[n], m0.defaults[n], m0.levels[n] = json.loads(_c(v)), t, lv, lv
